@@ -38,7 +38,7 @@
 EXTENDS Naturals, Integers, Sequences, FiniteSets, TLC, Json
 
 CONSTANTS Params,      \* sequence of parameter names (declaration order)
-          Kind,        \* Kind[p] \in {"any", "int", "event"}
+          Kind,        \* Kind[p] \in {"any", "int", "event", "slot"}
           Dom,         \* Dom[p]  : set of value tokens user code may assign (includes Bad for "int")
           Bad,         \* token rejected by validation
           WCfgs,       \* set of watcher configurations [ps, oc, q, prec] user code may register
@@ -128,7 +128,11 @@ Unwatch(w) ==
 SetFrame(p, v, ret, reset, op) ==
   [k |-> "set", p |-> p, old |-> val[p], new |-> v, pend |-> SortByPrec(RegSeq(p), Precs),
    ret |-> ret, reset |-> reset, dl |-> <<>>, op |-> op,
-   hasw |-> RegSeq(p) # <<>>]       \* Parameter.__set__ returns early when the parameter has no watcher at all
+   \* Parameter.__set__ returns early when the parameter has no watcher at all; a Parameter attribute ("slot") keeps its
+   \* watcher table entry once it was ever watched, so its assignments go through the dispatcher (and flush queued
+   \* events) even after every watcher was removed.  The property is silent on *when* a deferred event is delivered:
+   \* the specification follows the implementation here so that the replay is deterministic.
+   hasw |-> IF Kind[p] = "slot" THEN (\E w \in WIds : Watches(w, p)) ELSE RegSeq(p) # <<>>]
 
 Set(p, v) ==
   /\ "set" \in Acts /\ CanOp /\ nops' = nops + 1
